@@ -24,6 +24,7 @@ import (
 	"github.com/skycoin/skycoin/src/visor"
 	"github.com/skycoin/skycoin/src/visor/blockdb"
 	"github.com/skycoin/skycoin/src/wallet"
+	_ "github.com/skycoin/skycoin/src/wallet/collection" // registers the collection wallet type
 
 	"verif/lib/fix"
 	"verif/lib/ledger"
@@ -102,17 +103,18 @@ type scen struct {
 }
 
 type nleg struct {
-	r       *vf.Run
-	l       *local
-	n       *node.Node
-	chain   *fix.Chain
-	sh      *shadow
-	bank    fix.Key
-	owners  []fix.Key
-	dests   []cipher.Address
-	pending map[cipher.SHA256]bool // outputs spent by transactions in the pool
-	poolN   int
-	client  *http.Client
+	r        *vf.Run
+	l        *local
+	n        *node.Node
+	chain    *fix.Chain
+	sh       *shadow
+	bank     fix.Key
+	owners   []fix.Key
+	ownerSet map[cipher.Address]bool
+	dests    []cipher.Address
+	pending  map[cipher.SHA256]bool // outputs spent by transactions in the pool
+	poolN    int
+	client   *http.Client
 }
 
 func (nl *nleg) harnessFail(format string, a ...interface{}) {
@@ -134,7 +136,15 @@ func (nl *nleg) inject(t coin.Transaction, what string) {
 	nl.poolN++
 }
 
+var timing = map[string]time.Duration{}
+
+func timed(k string) func() {
+	t0 := time.Now()
+	return func() { timing[k] += time.Since(t0) }
+}
+
 func (nl *nleg) block(when uint64) {
+	defer timed("block")()
 	sb, err := nl.n.Visor.VerifCreateAndExecuteBlock(when)
 	if err != nil {
 		nl.harnessFail("create block at %d: %v", when, err)
@@ -169,15 +179,17 @@ func remU(h uint64) uint64 {
 	return h - f
 }
 
-// sweep moves every confirmed non-bank output that no pooled transaction spends back to the bank
+// sweep moves every confirmed output at an owner address that no pooled transaction spends back to the
+// bank, so that the next scenarios using these owner keys start from a clean slate
 func (nl *nleg) sweep() {
+	defer timed("sweep")()
 	var loose []coin.UxOut
 	for id, ux := range nl.sh.ux {
 		if ux.Body.Address == nl.bank.Addr || nl.pending[id] {
 			continue
 		}
-		if _, ok := nl.chain.KeyFor(ux.Body.Address); !ok || ux.Body.Address == nl.chain.Genesis.Addr {
-			continue
+		if !nl.ownerSet[ux.Body.Address] {
+			continue // outputs at pure destination addresses disturb nothing; they stay
 		}
 		loose = append(loose, ux)
 	}
@@ -205,6 +217,7 @@ func (nl *nleg) sweep() {
 
 // setup creates the offered outputs of all scenarios of a round in one transaction
 func (nl *nleg) setup(scs []*scen) {
+	defer timed("setup")()
 	var outs []fix.Out
 	var needC, needH uint64
 	for _, sc := range scs {
@@ -217,13 +230,20 @@ func (nl *nleg) setup(scs []*scen) {
 	bank := nl.bankOuts()
 	var in []coin.UxOut
 	var c, h uint64
+	// the bank output with the fewest hours that suffices alone (a tenth of the input hours is burnt)
+	for i := len(bank) - 1; i >= 0; i-- {
+		if bank[i].Body.Coins >= needC+2*nodeUnit && remU(nl.sh.accrued(bank[i])) >= needH+2 {
+			in, c, h = []coin.UxOut{bank[i]}, bank[i].Body.Coins, nl.sh.accrued(bank[i])
+			break
+		}
+	}
 	for _, ux := range bank {
-		in = append(in, ux)
-		c += ux.Body.Coins
-		h += nl.sh.accrued(ux)
 		if c >= needC+2*nodeUnit && remU(h) >= needH+2 {
 			break
 		}
+		in = append(in, ux)
+		c += ux.Body.Coins
+		h += nl.sh.accrued(ux)
 	}
 	if c < needC+2*nodeUnit || remU(h) < needH+2 {
 		nl.harnessFail("bank too poor: have %d coins %d hours, need %d coins %d hours", c, h, needC, needH)
@@ -246,6 +266,7 @@ func (nl *nleg) setup(scs []*scen) {
 }
 
 func (nl *nleg) tick() {
+	defer timed("tick")()
 	bank := nl.bankOuts()
 	if len(bank) == 0 {
 		nl.harnessFail("no bank output for a tick")
@@ -260,6 +281,9 @@ func planScenario(rng *rand.Rand, idx int, keys []fix.Key) *scen {
 	nOwn := 1 + rng.Intn(len(keys))
 	sc.owners = keys[:nOwn]
 	n := pickN(rng)
+	if n > 8 && rng.Intn(2) == 0 {
+		n = 1 + rng.Intn(8) // signatures dominate the node leg: fewer very large sets than in the pure leg
+	}
 	type ok struct {
 		a cipher.Address
 		c uint64
@@ -419,6 +443,7 @@ func classifyMessage(msg string) string {
 
 // runScenario issues one request against the scenario's outputs
 func (nl *nleg) runScenario(sc *scen) {
+	defer timed("scenario")()
 	r, l := nl.r, nl.l
 	rng := r.Rand("node-request", sc.idx)
 	via := sc.via
@@ -481,12 +506,12 @@ func (nl *nleg) runScenario(sc *scen) {
 		}
 	})
 	if panicked {
-		r.Violation("panic", map[string]string{"leg": leg, "via": via, "frame": frame, "msg": pmsg, "recipe": q.recipe}, q.witness(leg, sc.idx, nil, pmsg))
+		viol(r, "panic", map[string]string{"leg": leg, "via": via, "frame": frame, "msg": pmsg, "recipe": q.recipe}, q.witness(leg, sc.idx, nil, pmsg))
 		return
 	}
 	isAPI := strings.HasPrefix(via, "api")
 	if isAPI && err != nil {
-		r.Violation("api-no-usable-response", map[string]string{"leg": leg, "via": via, "error": err.Error(), "status": fmt.Sprint(status)}, q.witness(leg, sc.idx, nil, err.Error()))
+		viol(r, "api-no-usable-response", map[string]string{"leg": leg, "via": via, "error": err.Error(), "status": fmt.Sprint(status)}, q.witness(leg, sc.idx, nil, err.Error()))
 		return
 	}
 	if (isAPI && txn == nil) || (!isAPI && err != nil) {
@@ -510,7 +535,7 @@ func (nl *nleg) runScenario(sc *scen) {
 			if strings.Contains(es, "Duplicate output in transaction") {
 				cause = "duplicate-output"
 			}
-			r.Violation("non-user-level-error", map[string]string{"leg": leg, "via": via, "error": es, "recipe": q.recipe, "mode": modeKey(q), "cause": cause, "change_eq_dest": fmt.Sprint(predicted)}, q.witness(leg, sc.idx, nil, es))
+			viol(r, "non-user-level-error", map[string]string{"leg": leg, "via": via, "error": es, "recipe": q.recipe, "mode": modeKey(q), "cause": cause, "change_eq_dest": fmt.Sprint(predicted)}, q.witness(leg, sc.idx, nil, es))
 		}
 		report(r, leg, via, sc.idx, q, checkFailure(q, class, burnFactor()), observed{}, nil, es)
 		if predicted {
@@ -519,7 +544,7 @@ func (nl *nleg) runScenario(sc *scen) {
 		return
 	}
 	if txn == nil {
-		r.Violation("nil-result", map[string]string{"leg": leg, "via": via}, q.witness(leg, sc.idx, nil, ""))
+		viol(r, "nil-result", map[string]string{"leg": leg, "via": via}, q.witness(leg, sc.idx, nil, ""))
 		return
 	}
 	ps, ob := checkSuccess(q, txn, signed, burnFactor())
@@ -559,13 +584,16 @@ func (nl *nleg) runScenario(sc *scen) {
 			return
 		}
 	}
+	doneInj := timed("scenario-inject")
 	_, _, _, ierr := nl.n.Visor.InjectUserTransaction(full)
+	doneInj()
+	timing["n-scenario-sigs"] += time.Duration(len(full.In))
 	if ierr != nil {
 		cause := "other"
 		if strings.Contains(ierr.Error(), "Duplicate output in transaction") {
 			cause = "duplicate-output"
 		}
-		r.Violation("created-transaction-not-admitted", map[string]string{"leg": leg, "via": via, "error": ierr.Error(), "recipe": q.recipe, "mode": modeKey(q), "cause": cause, "change_eq_dest": fmt.Sprint(ob.changeEqDest)}, q.witness(leg, sc.idx, txn, ierr.Error()))
+		viol(r, "created-transaction-not-admitted", map[string]string{"leg": leg, "via": via, "error": ierr.Error(), "recipe": q.recipe, "mode": modeKey(q), "cause": cause, "change_eq_dest": fmt.Sprint(ob.changeEqDest)}, q.witness(leg, sc.idx, txn, ierr.Error()))
 		return
 	}
 	l.count("node.admitted")
@@ -585,7 +613,7 @@ func nodeLeg(r *vf.Run, nScen int) {
 		DataDir: dir, ChainTag: fmt.Sprintf("c12-%d", r.Seed), Volume: 100e12,
 		NKeys: nDist + nOwnerKeys + nDestKeys + 1, NDist: nDist, NUnlocked: nDist,
 		Publisher: true, Arbitrating: true, DisableCSRF: true, DisableNetworking: true,
-		MaxBlock: 4 << 20, WalletCrypto: "sha256-xor",
+		MaxBlock: 1 << 20, MaxOutgoingMsgLen: 2 << 20, MaxIncomingMsgLen: 2 << 20, WalletCrypto: "sha256-xor",
 	}
 	n, err := node.Start(opts)
 	if err != nil {
@@ -597,6 +625,10 @@ func nodeLeg(r *vf.Run, nScen int) {
 		client: &http.Client{Timeout: 2 * time.Minute}}
 	keys := n.Chain.Keys
 	nl.owners = keys[nDist : nDist+nOwnerKeys]
+	nl.ownerSet = map[cipher.Address]bool{}
+	for _, k := range nl.owners {
+		nl.ownerSet[k.Addr] = true
+	}
 	for _, k := range keys[nDist+nOwnerKeys : nDist+nOwnerKeys+nDestKeys] {
 		nl.dests = append(nl.dests, k.Addr)
 	}
@@ -709,6 +741,9 @@ func nodeLeg(r *vf.Run, nScen int) {
 	// confirm what is left in the pool: everything admitted must also make it into a block
 	if nl.poolN > 0 {
 		nl.block(nl.sh.headTime + 1)
+	}
+	if os.Getenv("C12_TIMING") != "" {
+		fmt.Fprintln(os.Stderr, "node leg timing:", timing)
 	}
 	l.count("node.harness.final-height")
 	l.counts["node.harness.final-height"] = int64(nl.sh.headSeq)
